@@ -6,6 +6,7 @@ func init() {
 		[]string{"reviewed external callees are read-only / internally synchronised (table in the checker)", "user-supplied comparators and key mappers are pure"},
 		func(r *Report) {
 			ruleEffect(r)
+			ruleDBIndexThreadSafe(r)
 			ruleLocks(r)
 			ruleByteAPICopies(r)
 			ruleAllocBounded(r)
